@@ -1,0 +1,33 @@
+//go:build verif
+
+// Machine-checked specifications for package core (comment-only file; read by
+// /verif/bin/hopvc).
+
+package core
+
+// wellFormedKey(kb): kb is the 32-byte key denoted by some well-formed
+// authorized-keys entry, i.e. a value keys.ParseDHPublicKey returned without error.
+//@ spec wellFormedKey(kb Bytes) bool
+
+//@ func keys.ParseDHPublicKey(encoded string) (k *keys.DHPublicKey, err error)
+//@   property C05
+//@   pure
+//@   ensures err == nil <==> k != nil
+//@   defines err == nil ==> wellFormedKey(bytes(*k))
+
+// Every key in the parsed list came from a well-formed entry; any parse error yields no list at all.
+//@ func ParseAuthorizedKeys(r io.Reader) (authorized AuthorizedKeys, err error)
+//@   property C05
+//@   ensures err != nil ==> len(authorized) == 0
+//@   ensures err == nil ==> (forall i int :: 0 <= i && i < len(authorized) ==> wellFormedKey(bytes(authorized[i])))
+//@   loop 1
+//@     invariant forall i int :: 0 <= i && i < len(authorized) ==> wellFormedKey(bytes(authorized[i]))
+//@     invariant err == nil
+
+// Allowed is exactly list membership.
+//@ func (akeys AuthorizedKeys) Allowed(pk keys.DHPublicKey) (result bool)
+//@   property C05
+//@   pure
+//@   ensures result <==> (exists i int :: 0 <= i && i < len(akeys) && akeys[i] == pk)
+//@   loop 1
+//@     invariant forall i int :: 0 <= i && i <= rangeindex ==> akeys[i] != pk
